@@ -100,6 +100,14 @@ def deep_rejections(res, tier):
         jobs.append((n, "manifest", "shared-references", bytes.fromhex("d86ba103") + bomb))
         jobs.append((n, "manifest-bstr", "shared-references", cbor2.dumps(cbor2.CBORTag(107, {3: bomb}))))
         jobs.append((n, "wrapper", "shared-references", cbor2.dumps(cbor2.CBORTag(107, {2: bomb, 3: cbor2.dumps({1: 1, 2: 1})}))))
+    # a shared *leaf*: one long byte string marked shareable (tag 28) and referenced many times (tag 29); and string references (25/256)
+    for leaf, refs in ([(4096, 2000), (60000, 30000)] if tier == "quick" else [(4096, 2000), (60000, 30000), (400000, 150000)]):
+        body = bytes.fromhex("d81c") + cbor2.dumps(bytes(leaf)) + bytes.fromhex("d81d00") * refs
+        arr = cbor2.dumps(refs + 1)
+        arr = bytes([0x80 | (arr[0] & 0x1F)]) + arr[1:]
+        jobs.append((refs, "manifest", "shared-references", bytes.fromhex("d86ba103") + arr + body))
+        sref = bytes.fromhex("d90100") + arr + cbor2.dumps(bytes(leaf)) + bytes.fromhex("d81900") * refs
+        jobs.append((refs, "manifest", "shared-references", bytes.fromhex("d86ba103") + sref))
 
     def one(job):
         lv, kind, tag, b = job
